@@ -239,14 +239,18 @@ fn gen_script(rng: &mut Rng, id: String) -> GenScript {
                 1 => {
                     // a mutation that leaves a valid request under ANOTHER request id would be counted under the
                     // wrong id by the invocation log: keep the id bytes intact
+                    // (a mutation that still decodes as a request must carry this script's id in `x-id`)
+                    let same_id = |m: &[u8]| match wire::dec_req(None, m).2 {
+                        wire::Dec::Req(r) => r.headers().get("x-id").map(|v| v == &id).unwrap_or(false),
+                        _ => true,
+                    };
                     let mut m = wire::mutate(rng, &full);
-                    let idb = id.as_bytes();
                     let mut tries = 0;
-                    while !m.windows(idb.len()).any(|w| w == idb) && tries < 8 {
+                    while !same_id(&m) && tries < 8 {
                         m = wire::mutate(rng, &full);
                         tries += 1;
                     }
-                    if !m.windows(idb.len()).any(|w| w == idb) {
+                    if !same_id(&m) {
                         m = rng.rbytes(100);
                     }
                     m
